@@ -162,7 +162,7 @@ type c09F struct {
 	S c09Inner
 }
 
-//verif:opt maxpaths=4000 reach=accepted,rejected
+//verif:opt maxpaths=4000 thorough.maxpaths=40000 reach=accepted,rejected
 func Harness_C09_F_decode() { c09DecodeLaw[c09F](13 + vChoice("len", 3+2*vTier())) }
 
 //verif:opt maxpaths=3000 reach=encoded,refused
